@@ -596,11 +596,12 @@ def _fuzz_job(job: Dict[str, Any]) -> Dict[str, Any]:
 
 
 # ------------------------------------------------------------------------------------------------- cfgs
-def cfg_enum(order_mode: str, bmenu: str) -> str:
+def cfg_enum(order_mode: str, bmenu: str, ns: str) -> str:
     return f"""SPECIFICATION Spec
 CONSTANTS Source = "enum"
   OrderMode = "{order_mode}"
   BMenu = "{bmenu}"
+  Ns = {ns}
 CONSTRAINT EmitTerminal
 INVARIANT AlwaysResultOrKF
 INVARIANT FallbackComplete
@@ -617,6 +618,7 @@ CFG_FILE = """SPECIFICATION Spec
 CONSTANTS Source = "file"
   OrderMode = "all"
   BMenu = "small"
+  Ns = {1, 2}
 CONSTRAINT Accept
 POSTCONDITION Post
 INVARIANT AlwaysResultOrKF
@@ -662,7 +664,7 @@ def run(ctx: Ctx) -> int:
         baseline_x[fmt] = t["xhtml"]
 
     # ================================================================= spec -> code : every fault combination, injected
-    r = ctx.tlc("Docstring", cfg_enum("Bfixed" if ctx.quick else "all", "small"), workers="auto", check=False,
+    r = ctx.tlc("Docstring", cfg_enum("Bfixed" if ctx.quick else "all", "small", "{1}" if ctx.quick else "{1, 2}"), workers="auto", check=False,
                 coverage=False, timeout=1500, java_opts=["-Xmx6g"])
     hard = [e for e in r.errors if "behavior up to this point" not in e]
     if hard or (r.rc != 0 and not r.violated):
@@ -671,13 +673,26 @@ def run(ctx: Ctx) -> int:
     recs = r.printed
     if not recs:
         raise MachineryError("Docstring: TLC emitted no behaviour")
-    ctx.exhaustive = True
     ctx.extra["behaviours_enumerated"] = len(recs)
     # distinct fault configurations x inherit x kind (every one is replayed with every enumerated order)
     ctx.extra["fault_configurations"] = len({json.dumps([x["F"], x["inherit"], x["kindA"]], sort_keys=True) for x in recs})
+    # replay: every fault configuration with a seeded sample of the enumerated call orders (all of them would be ~13 ms each)
+    per_cfg = 12 if ctx.quick else 60
+    groups: Dict[str, List[Dict[str, Any]]] = {}
+    for rec in recs:
+        groups.setdefault(json.dumps([rec["F"], rec["inherit"], rec["kindA"]], sort_keys=True), []).append(rec)
+    chosen: List[Dict[str, Any]] = []
+    for key in sorted(groups):
+        g = groups[key]
+        g.sort(key=lambda x: json.dumps(x["res"], sort_keys=True))
+        chosen += g if len(g) <= per_cfg else rng.sample(g, per_cfg)
+    ctx.extra["behaviours_replayed"] = len(chosen)
+    ctx.exhaustive = len(chosen) == len(recs)
     jobs = []
-    for idx, rec in enumerate(recs):
-        fmt = FMTS[idx % len(FMTS)]
+    markup_fmts = [f for f in FMTS if f != "plaintext"]
+    for idx, rec in enumerate(chosen):
+        needs_titles = any(rec["F"][o]["toc"] in ("ok", "stanraises") for o in OBJS)      # plain text has no section titles
+        fmt = markup_fmts[idx % len(markup_fmts)] if needs_titles else FMTS[idx % len(FMTS)]
         jobs.append((rec, fmt, bool((idx // len(FMTS)) % 2)))
     with ProcessPoolExecutor(max_workers=nproc) as ex:
         results = list(ex.map(_inj_job, jobs, chunksize=64))
@@ -698,8 +713,8 @@ def run(ctx: Ctx) -> int:
         if ctx.traces % 4000 == 1:
             ctx.sample({"faults": rec["F"], "inherit": rec["inherit"], "kindA": rec["kindA"], "fmt": fmt, "results": got})
     ctx.extra["spec_vs_code_mismatches"] = mism
-    if mism > len(recs) // 10:
-        raise MachineryError(f"{mism} of {len(recs)} enumerated behaviours are not reproduced by the code: coverage claim void")
+    if mism > len(chosen) // 10:
+        raise MachineryError(f"{mism} of {len(chosen)} replayed behaviours are not reproduced by the code: coverage claim void")
 
     # ================================================================= code -> spec : fuzzed docstrings, observed
     ndocs = 700 if ctx.quick else 12000
@@ -813,7 +828,7 @@ def run(ctx: Ctx) -> int:
              "on the real pipeline by fault injection, plus fuzzed docstrings x 5 docformats x kinds x process-types observed on the real "
              "pipeline; every execution validated by TLC. distinct = distinct enumerated behaviours + distinct fuzz executions; "
              "non-trivial = behaviours with at least one fault + fuzz executions whose parser reported or failed",
-        distinct_nontrivial=sum(1 for x in recs if any(x["F"][o] != NOFAULT for o in OBJS))
+        distinct_nontrivial=sum(1 for x in chosen if any(x["F"][o] != NOFAULT for o in OBJS))
         + sum(1 for t in fz if t["F"]["A"]["parse"] != "ok" or t["F"]["A"]["tostan"] != "ok"))
 
 
